@@ -301,6 +301,10 @@ def _d3(chk, fb):
         fills = [n for n in f.all_nodes() if n["k"] in ("BinaryOperator", "CompoundAssignOperator") and n.get("op") in ("=", "+=") and render(kids(n)[0]).startswith("distribution_[")]
         fills += [n for n in f.calls() if n["callee"]["name"] in ("emplace", "insert", "insert_or_assign", "try_emplace") and "obj" in n and render(f.obj(n)) == "distribution_"]
         clears = [n for n in f.calls() if n["callee"]["name"] == "clear" and "obj" in n and render(f.obj(n)) == "distribution_"]
+        handed = [n for n in f.calls() if any(render(a).replace("this.", "") == "distribution_" for a in f.args(n) if a is not None)]
+        if not fills and handed:
+            # the class table is handed to a helper by reference: the stores are made there
+            fills = handed
         if not fills:
             chk.refuted("D3", f.key, "fills-classes", f.loc(), "rebuild no longer stores any class")
             continue
@@ -606,12 +610,16 @@ def _d10(chk, fb, files):
     term weighted by the component's probability must accumulate ('+=' or 'x = x + ...'): two components may carry the same
     class value, and a plain assignment keeps only the last contribution, so the probabilities no longer sum to one"""
     n = 0
+    anchors = 0
     for f in fb.concrete_fns():
         if f.body is None or not any(f.file.endswith(x) for x in files) or not f.cls:
             continue
         comp = [fl["name"] for fl in fb.classes.get(f.cls, {}).get("fields", []) if "vector" in fl["ty"] and "DiscreteDistribution" in fl["ty"]]
         if not comp:
             continue
+        if f.name == "updateDistribution":
+            anchors += 1
+            n0 = n
         for w in f.all_nodes():
             if w["k"] not in ("BinaryOperator", "CompoundAssignOperator") or w.get("op") not in ("=", "+="):
                 continue
@@ -661,7 +669,9 @@ def _d10(chk, fb, files):
                         % (render(c)[:90], "inserts the weighted term only if the class value is new" if keeps else "replaces the entry of the class value",
                            "the later contribution is dropped" if keeps else "only the last contribution survives"),
                         witness={"input": "a mixture of two identical component distributions with weights 0.5 / 0.5: every class value is shared"})
-    chk.floor("D10", "weighted contributions written by compound rebuilds", n, 1)
+        if f.name == "updateDistribution" and n == n0:
+            chk.unknown("D10", f.key, "contributions-accumulate", f.loc(), "the weighted contributions of the components are not stored in a form read here (operator[] store or map insertion inside the component loop)")
+    chk.floor("D10", "compound rebuilds walking a vector of component distributions", anchors, 1)
 
 
 def run(chk, fb, tier):
